@@ -54,7 +54,23 @@ class FuncVal:
         self.node, self.genv, self.interp = node, genv, interp
         self.defaults = defaults      # {param: value} evaluated when the def statement ran (None: module level, lazily)
 
+    # decorators whose effect the interpreter (or the rule that builds the call) accounts for; a function under any other decorator
+    # is not the function its name denotes, and interpreting the bare body would decide something about code that does not run
+    _READABLE_DECORATORS = frozenset(('property', 'staticmethod', 'classmethod', 'wraps', 'colorful', 'contextmanager', 'dataclass',
+                                      'lru_cache', 'cache', 'cached_property', 'abstractmethod', 'overload', 'final', 'setter'))
+    decorators_applied = False      # set by a harness that applies the decorator list itself (props/render.run)
+
+    def _readable(self):
+        if self.decorators_applied:
+            return
+        for d in getattr(self.node, 'decorator_list', ()):
+            f = d.func if isinstance(d, ast.Call) else d
+            name = f.id if isinstance(f, ast.Name) else getattr(f, 'attr', None)
+            if name not in self._READABLE_DECORATORS:
+                raise Unknown(f'{self.node.name} is defined under the decorator `{ast.unparse(d)[:40]}`, which the interpreter does not apply')
+
     def __call__(self, *args, **kw):
+        self._readable()
         return self.interp.call(self, args, kw)
 
     def call_in_order(self, *values, **kw):
@@ -63,6 +79,7 @@ class FuncVal:
         a = self.node.args
         pos = [x.arg for x in a.posonlyargs + a.args]
         kwo = [x.arg for x in a.kwonlyargs]
+        self._readable()
         if len(values) <= len(pos) or a.vararg is not None:
             return self.interp.call(self, values, kw)
         extra = values[len(pos):]
